@@ -166,6 +166,16 @@ def native_witness(P, d, sel, C, seed):
         wpar = np.array([np.sum(G[:, aa, bb] * chi_[:, cc]) for (aa, bb, cc) in dec])
         if not (np.allclose(dpop, G.sum(axis=0).flatten()) and np.allclose(dpar, wpar)):
             return dict(case, what='sensitivities w.r.t. beta %s, transposed map of the named action %s' % (np.asarray(dpar).tolist(), wpar.tolist()), expected=wpar.tolist(), observed=np.asarray(dpar).tolist())
+    # renaming the dimensions keeps every beta name on the (parameter, dimension, covariate) it acts on
+    try:
+        cpm.set_dim_names(['dim%s' % chr(ord('A') + b) for b in range(d)])
+        names2 = cpm.get_parameter_names()
+    except Exception as ex:
+        return dict(case, what='set_dim_names raises %r' % (ex,), expected='renamed parameters', observed=repr(ex))
+    pop_grid2 = {(a, b): names2[a * d + b] for a in range(P) for b in range(d)}
+    dec2 = named_pairs(names2[n_pop:], pop_grid2, cpm.get_covariate_names())
+    if dec2 != dec:
+        return dict(case, what='after set_dim_names the beta names %s identify the triples %s, the coefficients act on %s' % (names2[n_pop:], dec2, dec), expected=str(dec), observed=str(dec2))
     return None
 
 
@@ -249,6 +259,9 @@ def sampler(rec):
                         return ('undecided', 'law algebra', 'row %d dim %d has law %s, the wrapped model at vartheta_i has N(%s, %s)' % (i, b, {k_: str(v_) for k_, v_ in law.items() if k_ != 'atoms'}, want[0], want[1]))
                     atoms_seen += law['atoms']
             if len(set(atoms_seen)) != len(atoms_seen):
+                wit = native_sampler_witness(rec.seed)
+                if wit is not None:
+                    return ('refuted', 'ghost provenance; native statistical replay', 'sampled individuals share random draws | native: ' + wit['what'], wit)
                 return ('undecided', 'ghost provenance', 'entries share random atoms')
             msgs.append('d=%d C=%d %s' % (d, C, 'centred' if centered else 'non-centred'))
         return ('discharged', 'ghost RNG law algebra', '; '.join(msgs))
@@ -268,6 +281,10 @@ def native_sampler_witness(seed):
         if abs(got - want) > 0.2:
             return {'what': 'individuals with covariate %.0f: sample mean %.3f, the wrapped model at vartheta_i has mean %.3f (%d draws)' % (c, got, want, m // 2),
                     'expected': want, 'observed': got, 'parameters': [1.0, 0.5, 1.0], 'covariate_pattern': 'alternating -20 / 30'}
+        sd = float(np.std(smp[grp::2, 0]))
+        if abs(sd - 0.5) > 0.05:
+            return {'what': 'individuals with covariate %.0f: sample standard deviation %.4f, the wrapped model at vartheta_i has 0.5 (%d draws; %d distinct values)' % (c, sd, m // 2, len(np.unique(smp[grp::2, 0]))),
+                    'expected': 0.5, 'observed': sd, 'parameters': [1.0, 0.5, 1.0], 'covariate_pattern': 'alternating -20 / 30'}
     return None
 
 
@@ -326,4 +343,170 @@ def degenerate_values(rec):
                      'n_cov in {1, 2} x covariate effects {all zero, one non-zero, all non-zero} x covariates {all zero, one non-zero row, all non-zero}; 3 individuals; distinct by pattern', exhaustive=True)
 
 
-TASKS = [('degenerate', degenerate_values)] + [('selections%02d' % c, (lambda rec, c=c: selections_task(rec, c, N_CHUNKS))) for c in range(N_CHUNKS)] + [('sampler', sampler)]
+def delegation(rec):
+    """CovariatePopulationModel.{compute_log_likelihood, compute_sensitivities, compute_individual_parameters} hand the wrapped model the
+    per-individual parameters vartheta_i[a, b] = theta[a * n_dim + b] + (covariate effect)  (flat vector parameter-major, as the names are
+    published), pass observations / eta / upstream sensitivities through unchanged, and return the wrapped model's results; the sensitivities
+    w.r.t. (vartheta_0, beta) are the covariate model's transposed map of the wrapped model's d/dvartheta.
+    Wrapped model: recording stub with the contract interface (2 parameters per dimension); covariate model: the real LinearCovariateModel."""
+    chi_sym = loader.load_shadow()
+    q = 'chi._population_models.CovariatePopulationModel.'
+    funcs = [q + 'compute_log_likelihood', q + 'compute_sensitivities', q + 'compute_individual_parameters']
+
+    def go():
+        done = []
+        for d, C, sel in [(1, 1, None), (2, 1, None), (2, 2, None), (3, 1, None), (2, 2, [[1, 0], [0, 1]])]:
+            P, N = 2, 2
+
+            class Rec(chi_sym.GaussianModel):
+                def __init__(self):
+                    chi_sym.GaussianModel.__init__(self, n_dim=d)
+                    self.seen = []
+
+                def compute_log_likelihood(self, parameters, observations, *a, **k):
+                    self.seen.append(('ll', parameters, observations, None))
+                    return S(sp.Symbol('L', real=True))
+
+                def compute_individual_parameters(self, parameters, eta, return_eta=False, *a, **k):
+                    self.seen.append(('ip', parameters, eta, return_eta))
+                    return np.array([[S(sp.Symbol('PSI_%d_%d' % (i_, b_), real=True)) for b_ in range(d)] for i_ in range(N)], dtype=object)
+
+                def compute_sensitivities(self, parameters, observations, dlogp_dpsi=None, flattened=True, *a, **k):
+                    self.seen.append(('se', parameters, observations, dlogp_dpsi, flattened))
+                    dpsi = np.array([[S(sp.Symbol('DPSI_%d_%d' % (i_, b_), real=True)) for b_ in range(d)] for i_ in range(N)], dtype=object)
+                    dvt = np.array([[[S(sp.Symbol('DV_%d_%d_%d' % (i_, a_, b_), real=True)) for b_ in range(d)] for a_ in range(P)] for i_ in range(N)], dtype=object)
+                    return S(sp.Symbol('L', real=True)), dpsi, dvt
+            base = Rec()
+            cpm = chi_sym.CovariatePopulationModel(base, chi_sym.LinearCovariateModel(n_cov=C))
+            if sel is not None:
+                cpm.set_population_parameters(sel)
+            cm = cpm._covariate_model
+            base = cpm._population_model          # (the constructor keeps a copy)
+            n_beta = cm.n_parameters()
+            th = [sp.Symbol('th_%d' % k, real=True) for k in range(P * d)]
+            beta = [sp.Symbol('beta_%d' % k, real=True) for k in range(n_beta)]
+            par = np.array([S(v) for v in th + beta], dtype=object)
+            chi_ = np.array([[S(sp.Symbol('chi_%d_%d' % (i_, c_), real=True)) for c_ in range(C)] for i_ in range(N)], dtype=object)
+            obs = np.array([[S(sp.Symbol('x_%d_%d' % (i_, b_), real=True)) for b_ in range(d)] for i_ in range(N)], dtype=object)
+            up = np.array([[S(sp.Symbol('u_%d_%d' % (i_, b_), real=True)) for b_ in range(d)] for i_ in range(N)], dtype=object)
+            grid = np.array([[S(th[a_ * d + b_]) for b_ in range(d)] for a_ in range(P)], dtype=object)      # published layout: parameter-major
+            label = 'n_dim=%d, n_cov=%d, selection %s' % (d, C, 'default' if sel is None else sel)
+            pw = explore(lambda: cm.compute_population_parameters(np.array([S(v) for v in beta], dtype=object), grid, chi_), [])
+            if [r[0] for _, r, _ in pw] != ['ret']:
+                return ('undecided', 'engine', '%s: covariate model paths %s' % (label, [(r[0], str(r[1])[:80]) for _, r, _ in pw]))
+            want_vt = pw[0][1][1]
+
+            def same(a_, b_):
+                a_, b_ = np.asarray(a_, dtype=object), np.asarray(b_, dtype=object)
+                return a_.shape == b_.shape and all(sp.expand(sym.w(x_) - sym.w(y_)) == 0 for x_, y_ in zip(a_.flatten(), b_.flatten()))
+            for name, call in (('compute_log_likelihood', lambda: cpm.compute_log_likelihood(par, obs, chi_)),
+                               ('compute_individual_parameters', lambda: cpm.compute_individual_parameters(par, obs, chi_)),
+                               ('compute_individual_parameters(return_eta)', lambda: cpm.compute_individual_parameters(par, obs, chi_, return_eta=True)),
+                               ('compute_sensitivities', lambda: cpm.compute_sensitivities(par, obs, chi_, dlogp_dpsi=up)),
+                               ('compute_sensitivities(reduce)', lambda: cpm.compute_sensitivities(par, obs, chi_, dlogp_dpsi=up, reduce=True))):
+                base.seen = []
+                paths = explore(call, [])
+                if [r[0] for _, r, _ in paths] != ['ret']:
+                    return ('refuted', 'symbolic execution', '%s, %s: paths %s' % (label, name, [(r[0], str(r[1])[:80]) for _, r, _ in paths]))
+                out = paths[0][1][1]
+                if len(base.seen) != 1:
+                    return ('refuted', 'call-site precondition', '%s, %s: the wrapped model is called %d times' % (label, name, len(base.seen)))
+                call_ = base.seen[0]
+                if not same(call_[1], want_vt):
+                    got = np.asarray(call_[1], dtype=object)
+                    bad = [(i_, a_, b_) for i_ in range(N) for a_ in range(P) for b_ in range(d)
+                           if got.shape != (N, P, d) or sp.expand(sym.w(got[i_, a_, b_]) - sym.w(want_vt[i_, a_, b_])) != 0][:1]
+                    return ('refuted', 'call-site precondition', '%s, %s: the wrapped model receives vartheta%s = %s, the documented transform of the published parameters gives %s' % (
+                        label, name, bad[0] if bad else '', str(sym.w(got[bad[0]]))[:80] if bad and got.shape == (N, P, d) else 'shape %s' % (got.shape,), str(sym.w(want_vt[bad[0]]))[:80] if bad else ''))
+                if not same(call_[2], obs):
+                    return ('refuted', 'call-site precondition', '%s, %s: observations / eta are not passed through unchanged' % (label, name))
+                if call_[0] == 'ip':
+                    if bool(call_[3]) != ('return_eta' in name) or not same(out, [[sp.Symbol('PSI_%d_%d' % (i_, b_), real=True) for b_ in range(d)] for i_ in range(N)]):
+                        return ('refuted', 'postcondition', '%s, %s: result %s / return_eta %s' % (label, name, str(out)[:80], call_[3]))
+                elif call_[0] == 'll':
+                    if sp.expand(sym.w(out) - sp.Symbol('L', real=True)) != 0:
+                        return ('refuted', 'postcondition', '%s, %s: value %s' % (label, name, out))
+                else:
+                    if not same(call_[3], up) or call_[4] is not False:
+                        return ('refuted', 'call-site precondition', '%s, %s: upstream sensitivities / flattened flag %s' % (label, name, call_[4]))
+                    dvt = np.array([[[S(sp.Symbol('DV_%d_%d_%d' % (i_, a_, b_), real=True)) for b_ in range(d)] for a_ in range(P)] for i_ in range(N)], dtype=object)
+                    ps = explore(lambda: cm.compute_sensitivities(np.array([S(v) for v in beta], dtype=object), grid, chi_, dvt), [])
+                    dpop, dcov = ps[0][1][1]
+                    want_dt = list(dpop) + list(dcov)
+                    dpsi_w = [[sp.Symbol('DPSI_%d_%d' % (i_, b_), real=True) for b_ in range(d)] for i_ in range(N)]
+                    if 'reduce' in name:
+                        score, vec = out
+                        if not same(vec, [v_ for row in dpsi_w for v_ in row] + want_dt):
+                            return ('refuted', 'postcondition', '%s, %s: reduced gradient is not [dpsi | d vartheta_0 | d beta]' % (label, name))
+                    else:
+                        score, dpsi, dtheta = out
+                        if not same(dpsi, dpsi_w) or not same(dtheta, want_dt):
+                            return ('refuted', 'postcondition', '%s, %s: gradient is not (dpsi, [d vartheta_0 | d beta])' % (label, name))
+                    if sp.expand(sym.w(score) - sp.Symbol('L', real=True)) != 0:
+                        return ('refuted', 'postcondition', '%s, %s: score %s' % (label, name, score))
+            done.append(label)
+        return ('discharged', 'symbolic execution with a recording contract stub, structural comparison', '; '.join(done))
+
+    def backed():
+        r = go()
+        if r[0] != 'refuted':
+            return r
+        wit = native_delegation_witness(rec.seed)
+        if wit is None:
+            return ('undecided', r[1], r[2] + ' (not reproduced natively)')
+        return ('refuted', r[1] + '; native replay', r[2] + ' | native: ' + wit['what'], wit)
+    rec.run('delegation/per-individual', funcs, 'Pκ', backed)
+
+
+def native_delegation_witness(seed):
+    """real wrapped models: every method vs. the wrapped model evaluated separately for each individual at vartheta_i computed by explicit loops"""
+    import chi as real
+    rng = np.random.default_rng(seed)
+    for cls, kw in (('GaussianModel', {}), ('GaussianModel', {'centered': False}), ('LogNormalModel', {'centered': False}), ('LogNormalModel', {})):
+        for d, C in ((2, 1), (3, 2), (1, 1)):
+            n = 3
+            cpm = real.CovariatePopulationModel(getattr(real, cls)(n_dim=d, **kw), real.LinearCovariateModel(n_cov=C))
+            names = cpm.get_parameter_names()
+            th = np.concatenate([rng.uniform(0.2, 1.0, d), rng.uniform(0.6, 1.2, d)])          # (location row, scale row), parameter-major as published
+            pop_grid = {(a, b): names[a * d + b] for a in range(2) for b in range(d)}
+            dec = named_pairs(names[2 * d:], pop_grid, cpm.get_covariate_names())
+            beta = rng.uniform(0.05, 0.2, len(dec))
+            cov = rng.uniform(0.5, 1.5, (n, C))
+            par = np.concatenate([th, beta])
+            x = rng.uniform(0.5, 2.0, (n, d))
+            case = {'model': '%s(n_dim=%d%s), %d covariates' % (cls, d, ', non-centred' if kw else '', C), 'parameters': dict(zip(names, par.tolist())), 'covariates': cov.tolist(), 'values': x.tolist()}
+            vt = np.zeros((n, 2, d))
+            for i in range(n):
+                for a in range(2):
+                    for b in range(d):
+                        vt[i, a, b] = th[a * d + b] + sum(cov[i, c] * beta[k] for k, (aa, bb, c) in enumerate(dec) if (aa, bb) == (a, b))
+            try:
+                ref = getattr(real, cls)(n_dim=d, **kw)
+                want_ll = sum(float(ref.compute_log_likelihood(vt[i].flatten(), x[i:i + 1])) for i in range(n))
+                got_ll = float(cpm.compute_log_likelihood(par, x, cov))
+                if not np.isclose(got_ll, want_ll):
+                    return dict(case, what='%s: log-likelihood %r, the wrapped model evaluated per individual at vartheta_i gives %r' % (case['model'], got_ll, want_ll), expected=want_ll, observed=got_ll)
+                cpm.set_n_ids(n)
+                ref.set_n_ids(1)
+                want_ip = np.vstack([np.asarray(ref.compute_individual_parameters(vt[i].flatten(), x[i:i + 1])).reshape(1, d) for i in range(n)])
+                got_ip = np.asarray(cpm.compute_individual_parameters(par, x, cov), dtype=float)
+                if got_ip.shape != want_ip.shape or not np.allclose(got_ip, want_ip):
+                    return dict(case, what='%s: individual parameters differ from the wrapped model\'s transform at vartheta_i (max abs diff %.3g)' % (case['model'], float(np.max(np.abs(got_ip - want_ip))) if got_ip.shape == want_ip.shape else float('nan')),
+                                expected=want_ip.tolist(), observed=got_ip.tolist())
+                sc, dpsi, dth = cpm.compute_sensitivities(par, x, cov)
+                h = 1e-6
+                for k in range(len(par)):
+                    pp, pm_ = par.copy(), par.copy()
+                    pp[k] += h
+                    pm_[k] -= h
+                    fd = (float(cpm.compute_log_likelihood(pp, x, cov)) - float(cpm.compute_log_likelihood(pm_, x, cov))) / (2 * h)
+                    if not np.isclose(float(np.asarray(dth).flatten()[k]), fd, rtol=1e-4, atol=1e-6):
+                        return dict(case, what='%s: sensitivity w.r.t. %r is %r, finite difference of the log-likelihood %r' % (case['model'], names[k], float(np.asarray(dth).flatten()[k]), fd), expected=fd, observed=float(np.asarray(dth).flatten()[k]))
+                if not np.isclose(float(sc), want_ll):
+                    return dict(case, what='%s: score %r returned with the sensitivities, per-individual value %r' % (case['model'], float(sc), want_ll), expected=want_ll, observed=float(sc))
+            except Exception as ex:
+                return dict(case, what='%s raises %r' % (case['model'], ex), expected='values', observed=repr(ex))
+    return None
+
+
+TASKS = [('delegation', delegation), ('degenerate', degenerate_values)] + [('selections%02d' % c, (lambda rec, c=c: selections_task(rec, c, N_CHUNKS))) for c in range(N_CHUNKS)] + [('sampler', sampler)]
